@@ -9,6 +9,7 @@ mkdir -p coq/Gatery/gen
 python3 translate/C13_keywords.py /repo coq/Gatery/gen/Keywords.v || true
 python3 translate/C04_eventorder.py /repo coq/Gatery/gen/EventOrder.v || true
 python3 translate/C08_logicplanes.py /repo coq/Gatery/gen/LogicSrc.v || true
+python3 translate/C18_bitmanip.py /repo coq/Gatery/gen/BitManipSrc.v || true
 python3 - <<'PY'
 import sys; sys.path.insert(0, "lib")
 import vcommon as V
